@@ -164,7 +164,11 @@ def runOp (g : Reg) (j : Json) : Except String (Reg × Json) := do
     | .ok (g', info) => pure (g', Json.mkObj [("ok", catJ info)])
     | .error e => pure (g, errJ e)
   | "obj" =>
-    let c ← getSym j "cat"
+    let c? ← optSym j "cat"
+    let c : Sym := match c? with | some c => c | none => 0
+    let mk : Sym → Except ErrKind Quant := fun u => match c? with
+      | some c => mkQuant g c u
+      | none => mkQuantNoCat g u
     let oj ← match j.getObjVal? "obj" with
       | .ok x => pure x
       | .error _ => throw "missing obj"
@@ -173,7 +177,7 @@ def runOp (g : Reg) (j : Json) : Except String (Reg × Json) := do
     if derived then
       -- the two factors of the product are built first (`Scalar(cat, v, unit) * Scalar(cat, 1.0, unit)`)
       let made : Except ErrKind Quant := match (optSym j "unit") with
-        | .ok (some u) => mkQuant g c u
+        | .ok (some u) => mk u
         | _ => .error .other
       match made with
       | .error e => pure (g, errJ e)
@@ -193,7 +197,7 @@ def runOp (g : Reg) (j : Json) : Except String (Reg × Json) := do
         else
           match (optSym j "unit") with
           | .ok (some u) =>
-            match mkQuant g c u with
+            match mk u with
             | .ok q => .ok (q, o)
             | .error e => .error e
           | _ => .error .other
@@ -205,6 +209,7 @@ def runOp (g : Reg) (j : Json) : Except String (Reg × Json) := do
         let ci := convInfo g q o
         pure (g, Json.mkObj [("ok", Json.mkObj [("outs", Json.arr (outs.map callOutJ).toArray), ("unit", symJ unit),
           ("value", match o with | .scalar v => valJ v | _ => .null),
+          ("cat", symJ (match q with | .simple ci _ _ => ci.name | .derived => 0)),
           ("conv", (ci.getObjValD "conv")), ("M", ci.getObjValD "M")])])
   | "copy" =>
     let c ← getSym j "cat"
